@@ -26,6 +26,9 @@ import (
 const modPath = "github.com/Trendyol/go-dcp"
 
 // World is the resolved program.
+// moduleIfaces: the module's named interface types by name (set by loadWorld).
+var moduleIfaces map[string][]*types.Named
+
 type World struct {
 	Repo     string
 	Fset     *token.FileSet
@@ -111,6 +114,20 @@ func loadWorld(repo string, overlay map[string][]byte, extraEnv ...string) (*Wor
 	})
 	if len(w.Pkgs) == 0 {
 		return nil, fmt.Errorf("no module packages (%s) among %d loaded packages", modPath, len(pkgs))
+	}
+	// named interface types of the module, by name (isInvokeOf resolves narrowed views of them)
+	moduleIfaces = map[string][]*types.Named{}
+	for _, p := range w.Pkgs {
+		sc := p.Types.Scope()
+		for _, n := range sc.Names() {
+			if tn, ok := sc.Lookup(n).(*types.TypeName); ok {
+				if nt, ok := tn.Type().(*types.Named); ok {
+					if _, isI := nt.Underlying().(*types.Interface); isI {
+						moduleIfaces[n] = append(moduleIfaces[n], nt)
+					}
+				}
+			}
+		}
 	}
 	return w, nil
 }
